@@ -10,6 +10,7 @@ import Driver.FileIO
 import Driver.Det
 import Driver.Util
 import Driver.Listing
+import Driver.Macro
 
 def dispatch (line : String) : String :=
   match (line.trimAscii.toString.splitOn " ").filter (· ≠ "") with
@@ -42,6 +43,7 @@ def dispatch (line : String) : String :=
   | "util" :: args => Driver.Util.handle args
   | "unum" :: args => Driver.Util.handleNum args
   | "lst" :: args => Driver.Listing.handle args
+  | "mexp" :: args => Driver.Macro.handleMexp args
   | _ => "bad-op"
 
 partial def loop (h : IO.FS.Stream) (out : IO.FS.Stream) : IO Unit := do
